@@ -408,7 +408,10 @@ func peek(st *state.StateDB, a common.Address) *state.Validator {
 	return v
 }
 
-type clause struct{ stat, index, sums, units, links string }
+type clause struct {
+	stat, index, sums, units, links string
+	neg                             bool // some record holds a negative token or stake
+}
 
 // oracle returns, per clause of the property, "" or a description of the failure.
 func oracle(st *state.StateDB) clause {
@@ -427,6 +430,9 @@ func oracle(st *state.StateDB) clause {
 			continue
 		}
 		live = append(live, a)
+		if v.Token.Sign() < 0 || v.Stake.Sign() < 0 {
+			c.neg = true
+		}
 		kind := 1
 		if v.Role == 3 {
 			kind = 2
@@ -570,6 +576,7 @@ func truncatedInvalid(v *state.Validator) bool {
 type runResult struct {
 	class     string // first finding class entered ("" = none)
 	undisc    bool   // caller discipline broken (raw update, over-withdraw, wrong stake, ...)
+	neg       bool   // a caller wrote a negative amount: the clamped statistics are no longer sums
 	failures  []string
 	failClass []string // class in force when the failure was seen
 	opsDone   int
@@ -614,6 +621,9 @@ func run(h *History, keepRaw bool, trace func(i int, o Op, hs *hasher, c clause)
 		case "update":
 			if old := peek(st, vaddrs[o.A]); old != nil && !disciplinedUpd(old, o.U) {
 				res.undisc = true
+				if bz(o.U.Token).Sign() < 0 || bz(o.U.Stake).Sign() < 0 {
+					res.neg = true
+				}
 			}
 		case "remove":
 			if st.VerifC08Raw(vaddrs[o.A]).Present {
@@ -635,6 +645,7 @@ func run(h *History, keepRaw bool, trace func(i int, o Op, hs *hasher, c clause)
 				}
 				if new(big.Int).Add(cur, bz(o.Amt)).Sign() < 0 {
 					res.undisc = true
+					res.neg = true
 				}
 			}
 		case "revert":
@@ -699,7 +710,12 @@ func run(h *History, keepRaw bool, trace func(i int, o Op, hs *hasher, c clause)
 				res.failClass = append(res.failClass, res.class)
 			}
 		}
-		add(c.stat)
+		if c.neg && res.undisc {
+			res.neg = true // negative amounts emerged from undisciplined writes: clamped statistics are no longer sums
+		}
+		if !res.neg {
+			add(c.stat)
+		}
 		add(c.index)
 		if !res.undisc {
 			add(c.sums)
